@@ -130,10 +130,11 @@ def gen_layer(rng, dup=False):
         pr = [dict(name="sid", kind="coded", bytepos=0, bl=8, value=(pre[0] + 0x40) & 0xFF, semantic=None, bt=1)]
         for k in range(rng.choice([0, 1])):
             pr.append(dict(name=f"res{k}", kind="value", bytepos=rng.choice([1 + 2 * k, None]), dop=rng.choice(["dopA", "dopB"]), semantic=None))
-        svcs.append(dict(name=f"svc{i}", rq=rq, pr=pr))
+        # (defined in descending order of their names: the definition order is not the alphabetical one)
+        svcs.append(dict(name=f"svc{n - i}", rq=rq, pr=pr))
     if not dup and rng.random() < 0.4:
         # one service whose request does not start with a constant: its identifying prefix is empty
-        svcs.append(dict(name=f"svc{n}", rq=[dict(name="lead", kind="value", bytepos=0, dop="dopB", semantic=None)],
+        svcs.append(dict(name="svc0", rq=[dict(name="lead", kind="value", bytepos=0, dop="dopB", semantic=None)],
                          pr=[dict(name="sid", kind="coded", bytepos=0, bl=8, value=0x77, semantic=None, bt=1)]))
     return dict(services=svcs, ndops=2, dup=dup, dopbits=dict(dopA=16, dopB=8, dopC=16))
 
@@ -316,6 +317,11 @@ def emit_family(L, esd_name="esd"):
            '</DATA-OBJECT-PROPS></DIAG-DATA-DICTIONARY-SPEC></ECU-SHARED-DATA></ECU-SHARED-DATAS>')
     ev = ('<ECU-VARIANTS><ECU-VARIANT ID="EV"><SHORT-NAME>EV</SHORT-NAME><PARENT-REFS>'
           '<PARENT-REF ID-REF="BV" DOCREF="DLC" DOCTYPE="CONTAINER" xsi:type="BASE-VARIANT-REF"/></PARENT-REFS></ECU-VARIANT></ECU-VARIANTS>')
+    # a single ECU job beside the services of the base variant (inherited by the ECU variant): a job is no service
+    job = ('<SINGLE-ECU-JOB ID="BV.job1"><SHORT-NAME>job1</SHORT-NAME><PROG-CODES><PROG-CODE><CODE-FILE>job1.jar</CODE-FILE>'
+           '<SYNTAX>JAR</SYNTAX><REVISION>1.0</REVISION></PROG-CODE></PROG-CODES></SINGLE-ECU-JOB>')
+    assert xml.count("</DIAG-COMMS>") == 1
+    xml = xml.replace("</DIAG-COMMS>", job + "</DIAG-COMMS>")
     assert xml.count("<BASE-VARIANTS>") == 1 and xml.count("</BASE-VARIANTS>") == 1
     return xml.replace("<BASE-VARIANTS>", esd + "<BASE-VARIANTS>").replace("</BASE-VARIANTS>", "</BASE-VARIANTS>" + ev)
 
@@ -342,7 +348,7 @@ def family_checks(ck, rng, base, es):
     Lm = copy.deepcopy(base)
     Lm["ncp"], Lm["ncp_dup"] = 3, 1
     try:
-        db = hc.load_docs([emit_family(Lm, esd_name)] + docs)
+        db = hc.load_docs([emit_family(Lm, esd_name)] + docs, aux_files=["job1.jar"])
     except Exception as e:  # noqa
         ck.note_broken(f"the three-layer document does not load: {type(e).__name__}: {e}")
         return
@@ -373,7 +379,7 @@ def family_checks(ck, rng, base, es):
     ev_old = by_name["EV"]
     for label, new, exp in es[:10]:
         try:
-            db_new = hc.load_docs([emit_family(new, esd_name)] + docs)
+            db_new = hc.load_docs([emit_family(new, esd_name)] + docs, aux_files=["job1.jar"])
         except Exception:  # noqa
             continue
         r = run_compare({dl.short_name: dl for dl in db_new.diag_layers}["EV"], ev_old)
